@@ -613,7 +613,7 @@ def truncation_mask_multiplets(S, tol=0, D_total=float('inf'),
         return Smask
     active_sectors = filter(lambda x: any(Smask[x]), Smask.struct.t)
     for t in active_sectors:
-        tn = np.array(t, dtype=np.int64).reshape((1, 1, -1))
+        tn = np.array(t, dtype=np.int64).reshape((2, 1, S.config.sym.NSYM))  # block key holds the charge twice
         tn = tuple(S.config.sym.fuse(tn, (1,), -1).ravel().tolist())
         if t == tn:
             continue
